@@ -21,6 +21,8 @@ type GenOpts struct {
 	LRFree    bool // repair left recursion away (C03)
 	Share     bool // bias towards several references to one rule at one position (cache hits)
 	SkWeights []int // when set, the skeleton kind is sampled from this list
+	Suppress  bool  // combinator.SuppressError wrappers
+	NearMiss  bool  // prefer sentences of the grammar with one byte changed / inserted / deleted / appended
 }
 
 // fixRepetitions makes every repetition operand consume input (C02's precondition): a
@@ -88,7 +90,7 @@ func fixLeftRecursion(g *Grammar, t *rapid.T, alphabet string) {
 					ch := alphabet[rapid.IntRange(0, len(alphabet)-1).Draw(t, "lrfix")]
 					return &Expr{K: KSeqOf, Kids: []*Expr{tm(ch), e}}
 				}
-			case KAny, KChoice, KOpt, KMany, KMany1, KLTrim, KRTrim:
+			case KAny, KChoice, KOpt, KMany, KMany1, KLTrim, KRTrim, KSuppress:
 				for i, k := range e.Kids {
 					e.Kids[i] = walk(k, true)
 				}
@@ -166,6 +168,9 @@ func GenGrammar(t *rapid.T, o GenOpts) *Grammar {
 			if o.Trims {
 				kinds = append(kinds, KLTrim, KRTrim, KRTrim)
 			}
+			if o.Suppress {
+				kinds = append(kinds, KSuppress)
+			}
 		}
 		k := kinds[rapid.IntRange(0, len(kinds)-1).Draw(t, "kind")]
 		e := &Expr{K: k}
@@ -199,7 +204,7 @@ func GenGrammar(t *rapid.T, o GenOpts) *Grammar {
 			for i := 0; i < m; i++ {
 				e.Kids = append(e.Kids, gen(nt, depth+1, neg || i < m-1))
 			}
-		case KOpt:
+		case KOpt, KSuppress:
 			e.Kids = []*Expr{gen(nt, depth+1, neg)}
 		case KLTrim, KRTrim:
 			e.Mode = rapid.IntRange(0, 3).Draw(t, "wsmode")
@@ -286,6 +291,9 @@ func GenGrammar(t *rapid.T, o GenOpts) *Grammar {
 // by a random derivation, or a one-byte mutation of such a sentence.
 func GenInput(t *rapid.T, g *Grammar, o GenOpts) string {
 	kind := rapid.IntRange(0, 3).Draw(t, "inkind")
+	if o.NearMiss {
+		kind = rapid.SampledFrom([]int{3, 3, 3, 3, 2, 1, 0}).Draw(t, "inkindNM")
+	}
 	var b []byte
 	if kind == 0 || g == nil {
 		n := rapid.IntRange(0, o.MaxInput).Draw(t, "inlen")
@@ -335,6 +343,8 @@ func GenInput(t *rapid.T, g *Grammar, o GenOpts) string {
 				}
 				derive(e.Kids[0])
 			}
+		case KSuppress:
+			derive(e.Kids[0])
 		case KLTrim:
 			b = append(b, wsSample(t)...)
 			derive(e.Kids[0])
@@ -346,11 +356,13 @@ func GenInput(t *rapid.T, g *Grammar, o GenOpts) string {
 	derive(g.Rules[rapid.IntRange(0, len(g.Rules)-1).Draw(t, "startrule")])
 	if kind == 3 && len(b) > 0 {
 		i := rapid.IntRange(0, len(b)-1).Draw(t, "mutpos")
-		switch rapid.IntRange(0, 2).Draw(t, "mutkind") {
+		switch rapid.IntRange(0, 3).Draw(t, "mutkind") {
 		case 0:
 			b[i] = o.Alphabet[rapid.IntRange(0, len(o.Alphabet)-1).Draw(t, "mutch")]
 		case 1:
 			b = append(b[:i], b[i+1:]...)
+		case 3:
+			b = append(b, o.Alphabet[rapid.IntRange(0, len(o.Alphabet)-1).Draw(t, "mutch")])
 		default:
 			b = append(b[:i], append([]byte{o.Alphabet[rapid.IntRange(0, len(o.Alphabet)-1).Draw(t, "mutch")]}, b[i:]...)...)
 		}
